@@ -202,6 +202,25 @@ theorem c16_no_star_same_count (ps xs : List (List Char)) (h : ps.getLast? ≠ s
   simp only [segsMatch, h, if_false, fixedMatch, Bool.and_eq_true, beq_iff_eq] at hm
   exact hm.1
 
+/-- "Matched case-insensitively … segment by segment": the decision depends on the path only through
+    its case-folded segment list — two paths with the same folded segments (after the surrounding
+    blanks and '/' are dropped) are decided alike by the implementation model, for every right. -/
+theorem c16_case_insensitive (right : List Char) (admin : Bool) (p q : List Char)
+    (h : segments IpcHub.GoUnicode.toLower (strip IpcHub.GoUnicode.isSpace p)
+       = segments IpcHub.GoUnicode.toLower (strip IpcHub.GoUnicode.isSpace q)) :
+    implPermits goCfg right admin p = implPermits goCfg right admin q := by
+  rw [c16_equiv, c16_equiv]
+  unfold permits
+  apply any_congr_mem
+  intro pat _
+  unfold patMatch
+  rw [h]
+
+/-- non-vacuity of `c16_case_insensitive`: `/Room/É` and ` room/é/ ` have the same folded segments -/
+example : segments IpcHub.GoUnicode.toLower (strip IpcHub.GoUnicode.isSpace "/Room/É".toList)
+    = segments IpcHub.GoUnicode.toLower (strip IpcHub.GoUnicode.isSpace " room/é/ ".toList) := by
+  decide
+
 /-- non-vacuity of `c16_no_star_same_count` -/
 example : (segments uLower "/a/+".toList).getLast? ≠ some ['*'] ∧
     segsMatch (segments uLower "/a/+".toList) (segments uLower "A/b/".toList) = true := by decide
